@@ -286,6 +286,7 @@ Section Steps.
   Qed.
 End Steps.
 
+
 (* ------------------------------------------------------------------ *)
 (* whole programs *)
 
@@ -387,7 +388,10 @@ Example pex_runs :
              map (fun t => out_ptr (ptr_out t)) tr = [1; 2; 3; 0; 2; 0; 0; 0; 2; 3; 0] /\
              mp_spec_ok pex_prog (map (fun t => out_ptr (ptr_out t)) tr) [] = true /\
              mp_allocsize (w_pool (ptr_w (last tr (PUnit, mp_world0 2, [])))) = 4.
-Proof. eexists. repeat split; vm_compute; reflexivity. Qed.
+Proof.
+  eexists. split; [vm_compute; reflexivity|]. split; [vm_compute; reflexivity|].
+  split; vm_compute; reflexivity.
+Qed.
 
 (* the spec predicate is not trivially true: handing out object 1 twice is rejected *)
 Example pex_spec_rejects : mp_spec_ok [PMalloc; PMalloc] [1; 1] [] = false.
